@@ -261,14 +261,6 @@ theorem validateHeader_no_panic_partial (h : HeaderM) (b : Bits) (hwf : h.wf = t
 /-- the decidable exclusion of the request/response part -/
 def ExclOp (op : OpM) : Bool := UnguardedRecursion op || ContentParamNoSchema op
 
-theorem mem_zipIdx {α : Type} : ∀ (l : List α) (i : Nat) (p : Nat × α), p ∈ zipIdx l i → p.2 ∈ l
-  | [], _, _, h => by simp [zipIdx] at h
-  | x :: xs, i, p, h => by
-    simp only [zipIdx, List.mem_cons] at h
-    rcases h with h | h
-    · subst h; simp
-    · exact List.mem_cons_of_mem _ (mem_zipIdx xs (i + 1) p h)
-
 /-- `ValidateRequest` on a valid document outside the exclusion: for ALL traffic (all decoder and
     validator answers) the outcome is success or an error, never a panic or unbounded recursion -/
 theorem validateRequest_no_panic_partial (op : OpM) (t : ReqTraffic) (hv : DocValid op = true)
@@ -373,23 +365,6 @@ theorem validateResponse_no_panic_partial (op : OpM) (t : RespTraffic) (hv : Doc
                     · rfl
                     · exact visit_not_bad _ _ hres hung
           · exact hh
-
-theorem convertSchema_not_bad (pn : Bool) : ∀ (chain : List SchemaErrM),
-    chain.all (fun s => !(s.enumField && s.schemaNil)) = true → (convertSchema pn chain).bad = false
-  | [], _ => rfl
-  | x :: xs, h => by
-    simp only [List.all_cons, Bool.and_eq_true] at h
-    have ihx := convertSchema_not_bad pn xs h.2
-    unfold convertSchema
-    cases hcs : convertSchema pn xs with
-    | ok =>
-      simp only
-      have : ¬ (x.enumField = true ∧ x.schemaNil = true) := by
-        intro hxx; have := h.1; simp [hxx.1, hxx.2] at this
-      simp [this]; rfl
-    | err => rfl
-    | panic s => rw [hcs] at ihx; simp [Out.bad] at ihx
-    | diverge => rw [hcs] at ihx; simp [Out.bad] at ihx
 
 /-- `ConvertErrors` never panics on the errors the validators build (enum errors carry their schema) -/
 theorem convertErrors_no_panic (e : ReqErrM) (h : ErrWF e = true) : (convertErrors e).bad = false := by
